@@ -230,6 +230,15 @@ class Env:
         self.pton = pton
 
 
+def random_A(rng):
+    """a first configuration for the reconfigure family (everything may differ from the one that counts)"""
+    masks = list(range(0, 32, 2))
+    return {"acca": 1 + rng.below(2), "asca": 1 + rng.below(2), "asvc": rng.below(3), "avc": rng.below(2),
+            "avn": rng.below(2), "avt": rng.below(2), "asvt": rng.below(2),
+            "acp": rng.choice([24, 24, 8, 16, rng.choice(masks)]), "asp": rng.choice([24, 24, 8, 16, rng.choice(masks)]),
+            "aciph": rng.below(3), "adepth": rng.choice([-1, 0, 1, 6]), "akp": rng.below(2)}
+
+
 def hs_line(env, rng, **kw):
     """one `hs` op line; unspecified parameters are drawn at random"""
     p = {}
@@ -251,12 +260,20 @@ def hs_line(env, rng, **kw):
     p["chunk"] = kw.get("chunk", rng.choice([1, 7, 300, 4096, 16384, 16385, 40000, 65536]))
     p["seed"] = rng.next()
     p["noise"] = kw.get("noise", rng.choice([0, 0, 0, 4, 40, 128]))
+    rc = kw.get("rc", rng.choice([0, 0, 0, 1, 2]))
+    extra = []
+    if rc:
+        a = kw.get("A") or random_A(rng)
+        extra = ["rc=%d" % rc] + ["%s=%d" % (k, a[k]) for k in sorted(a)]
+    if "depth" in kw:
+        extra.append("depth=%d" % kw["depth"])
     scert = server_cert(kw.get("scert", "trusted"), p["cca"], kw.get("names", "std"))
     ccert = client_cert(kw.get("ccert", "none"), p["sca"])
     host = HOSTS[kw.get("host", "match")]
     words = ["hs"] + ["%s=%d" % (k, p[k]) for k in
                       ("ciph", "cp", "sp", "vc", "vn", "vt", "svc", "svt", "cca", "sca", "cam", "sam", "kpm",
                        "first", "cut", "bias", "burst", "buf", "n", "chunk", "seed", "noise")]
+    words += extra
     words += ["perm=%d" % env.perm[p["ciph"]], "pton=" + env.pton, "scert=" + scert, "ccert=" + ccert,
               "host=" + ("~" if host is None else hx(host))]
     return " ".join(words)
@@ -285,6 +302,33 @@ def protocol_matrix(env, rng):
             for sp in range(0, 32, 2):
                 out.append([hs_line(env, rng, ciph=ciph, cp=cp, sp=sp, vc=rng.below(2), vn=rng.below(2),
                                     vt=rng.below(2), n=rng.below(200))])
+    return out
+
+
+def reconfigure_family(env, rng):
+    """the same contexts configured with A, then with B: A is chosen so that anything that survived from it would
+    change the outcome under B (other CA trusted, time checks off, stricter/looser verify_client, other protocol
+    set, a cipher list the certificate cannot serve, another keypair)"""
+    out = []
+    for rc in (1, 2):
+        for svc in (0, 1, 2):
+            for cc in ("none", "trusted", "untrusted", "expired"):
+                for sc in ("trusted", "untrusted", "expired"):
+                    for variant in range(3):
+                        sca, cca = 1 + rng.below(2), 1 + rng.below(2)
+                        a = random_A(rng)
+                        if variant == 0:        # A trusts exactly what B does not, and does not check dates
+                            a.update(asca=3 - sca, acca=3 - cca, asvt=0, avt=0, asvc=rng.choice([1, 2]), avc=1)
+                        elif variant == 1:      # A verifies nothing / B everything it is told to
+                            a.update(asvc=0, avc=0, avn=0, asca=3 - sca, acca=3 - cca)
+                        else:                   # A narrows protocols and ciphers
+                            a.update(aciph=2, acp=8, asp=8, akp=1)
+                        vers = rng.choice([8, 16, 24, 24])
+                        out.append([hs_line(env, rng, ciph=0, cp=vers, sp=rng.choice([vers, 24]), vc=1,
+                                            vn=rng.below(2), vt=rng.below(2), svt=rng.below(2), svc=svc, ccert=cc,
+                                            scert=sc, sca=sca, cca=cca, host="match", rc=rc, A=a,
+                                            n=rng.below(300), noise=rng.choice([0, 0, 20]),
+                                            depth=rng.choice([-1, 0, 1, 6]))])
     return out
 
 
@@ -438,7 +482,7 @@ def probe(run, ca0):
     lines = []
     for ciph in (0, 1):
         for v in (2, 4, 8, 16):
-            lines.append(hs_line(env0, rng, ciph=ciph, cp=v, sp=v, vc=0, vn=0, n=1, cut=0, buf=0, noise=0))
+            lines.append(hs_line(env0, rng, ciph=ciph, cp=v, sp=v, vc=0, vn=0, n=1, cut=0, buf=0, noise=0, rc=0))
     for c in CIPHERS:
         if c is not None:
             lines.append("cfg ca0:%s ciphers:%s:1 |" % (hx(ca0), hx(c)))
@@ -535,6 +579,9 @@ def run_checked(ck, run, env, ca0, cipher_ok, curve_nid):
         "each way in random chunks <= 64 KiB, orderly close or transport cut) under a seeded schedule, with "
         "unrelated rejected library calls (bogus cipher list / curve / key file / CA file / PEM on scratch objects, "
         "leaving OpenSSL's error queue dirty) interleaved at rate noise/256 per step; "
+        "in 2 of 5 sessions (and in the whole reconfigure family: 2 x 3 x 4 x 3 x 3 cases) the same client and "
+        "server contexts are first configured with another configuration A (rc=1), or configured with A, used for "
+        "a session attempt, closed and tls_reset (rc=2), before the configuration that counts; "
         "an endpoint whose handshake was refused keeps calling tls_write/tls_read 4 more times (after=crossed if "
         "anything is accepted or delivered); "
         "inj case = one wrapper call (or tls_handshake followed by one I/O call) on a hand-set state with 3 scripted "
@@ -582,6 +629,12 @@ def run_checked(ck, run, env, ca0, cipher_ok, curve_nid):
     nfail += run.par_compare(prm, "protocol-matrix", chunk=60, workers=12)
     ck.cov["protocol_matrix_cases"] = len(prm)
     ck.sample(prm[300][0])
+
+    # reconfigure family: the outcome is that of the LAST configuration alone
+    rf = reconfigure_family(env, rng)
+    nfail += run.par_compare(rf, "reconfigure", chunk=40, workers=12)
+    ck.cov["reconfigure_family_cases"] = len(rf)
+    ck.sample(rf[len(rf) // 3][0])
 
     # sampled cross product incl. the extra certificate kinds, hosts, name sets, cuts
     rs = [random_session(env, rng) for _ in range(ck.scale(600, 24000) * (4 if hard else 1))]
